@@ -368,6 +368,43 @@ func (f *fixture) buildTx(forest []node, o optList) (bz []byte, how string, err 
 			bz, err = w.CosmosTx(ctx, spec2)
 			how = "eip712-unsignable"
 		}
+	case web3 && len(o.crit) >= 2 && o.crit[0] == "web3" && !b.raw:
+		// a properly EIP-712-signed transaction to which further critical options are appended afterwards
+		// (the typed data does not cover the option list): must be refused for its options, not for its signature
+		spec := world.EIP712Spec{CosmosSpec: world.CosmosSpec{Key: w.Keys[f.S], Msgs: msgs, Gas: 500000, NonCrit: non}}
+		func() {
+			defer func() {
+				if r := recover(); r != nil {
+					err = fmt.Errorf("panic: %v", r)
+				}
+			}()
+			bz, err = w.EIP712Tx(ctx, spec)
+		}()
+		how = "eip712-signed+options"
+		if err == nil {
+			var extra []*codectypes.Any
+			for i, c := range crit {
+				if i == 0 {
+					continue
+				}
+				if c == nil {
+					c = world.MustAny(&haqqtypes.ExtensionOptionsWeb3Tx{FeePayer: w.Addrs[f.S].String(), TypedDataChainID: w.EIP155().Uint64()})
+				}
+				extra = append(extra, c)
+			}
+			bz, err = world.MutateTx(bz, func(body *txtypes.TxBody, _ *txtypes.AuthInfo, _ *[][]byte) {
+				body.ExtensionOptions = append(body.ExtensionOptions, extra...)
+			})
+		}
+		if err != nil {
+			for i := range crit {
+				if crit[i] == nil {
+					crit[i] = world.MustAny(&haqqtypes.ExtensionOptionsWeb3Tx{FeePayer: w.Addrs[f.S].String(), TypedDataChainID: w.EIP155().Uint64()})
+				}
+			}
+			bz, err = w.CosmosTx(ctx, world.CosmosSpec{Key: w.Keys[f.S], Msgs: msgs, Gas: 500000, ExtOpts: crit, NonCrit: non})
+			how = "cosmos-signed"
+		}
 	default:
 		for i := range crit {
 			if crit[i] == nil {
